@@ -4,7 +4,7 @@ CFG = dict(
     theorems=["prim_wf", "uvSphere_wf", "uvSphereUnwelded_wf", "hemisphere_wf", "circle_wf", "cone_wf", "cylinder_wf", "cylinder_nocaps_wf",
               "extrudeShape_wf", "quad_wf", "cube_wf", "cubeUnwelded_wf",
               "unweld_wf", "removeUnreferenced_wf", "toPointCloud_wf", "flip_wf", "setIndices_wf",
-              "append_wf", "setAttr_wf", "modifyAttr_wf", "mapAttr_wf", "setNormals_wf", "filterAttr_wf",
+              "append_wf", "setAttr_wf", "setAttr_delete_wf", "modifyAttr_wf", "mapAttr_wf", "setNormals_wf", "filterAttr_wf",
               "filterAttr_rejects_non_point", "filterAttrOld_breaks_triangles", "crop_wf", "removeNullFaces_wf",
               "splitOnMaterials_wf", "weld_wf", "repeatMesh_wf", "step_wf", "ops_closed",
               "translate_wf", "scaleAbout_wf", "scaleMesh_wf", "rotate_wf", "applyTRS_wf", "center_wf", "normalize_wf",
